@@ -76,6 +76,20 @@ subscript assignment: all refused)
                                            floating point is NOT interpreted; the product (together with the
                                            IndexError of the lookup) is the symbolic value
                                            `Py.FloatTimesTable.mk "TABLE" e i`, usable only as a return value
+  init mode (`Func(init=True, unpacked="buff")`, for `__init__(self, cm, buff)` of a class whose single base
+  class is a module-level class without bases and without `__init__`):
+    super().__init__()                     dropped
+    self.cm = cm                           the attribute then denotes the context object
+    self.X = e ; reads of self.X           int attributes (Lean locals `self_X`)
+    self.length                            the class attribute `length = <int literal>`
+    t1, ..., tn = <cm>.packer["FMT"].unpack(buff[: self.length])   (ti a name or self.X; at most once;
+                                           `buff` has no other use): struct is NOT interpreted: the
+                                           translated function takes the unpacked values `vs : List Int`
+                                           and matches `[t1, ..., tn]` (`none` = ValueError for another
+                                           number of values); FMT and the length are emitted as
+                                           `<name>_unpack` for the theorems to tie to the struct model
+    reaching the end                       `some [("X", self_X), ...]`: the int attributes set on that
+                                           path, in order of first assignment
   Stream reads, calls and the raise-tests are hoisted in evaluation order in front of the
   statement; they are refused inside `and`/`or` operands after the first and inside conditional
   expressions, where Python would evaluate them conditionally.
@@ -87,6 +101,7 @@ import sys
 T_INT, T_BOOL, T_BYTES = "Int", "Bool", "List Int"
 T_STR, T_LIST = "Py.Str", "Py.IntList"      # abbreviations of `List Int` (code points / elements), Model/PyInt.lean
 SEQ = (T_BYTES, T_STR, T_LIST)
+T_FIELDS = "List (String × Int)"          # result of an object initialiser: the int attributes it set
 T_FTAB = "Py.FloatTimesTable"              # the uninterpreted product float(e) * TABLE[i]
 LEAN_KEYWORDS = {"end", "at", "by", "do", "from", "fun", "have", "in", "let", "match", "then", "else", "if", "show",
                  "with", "where", "open", "def", "theorem", "example", "instance", "structure", "class", "namespace",
@@ -112,9 +127,18 @@ class Func:
     variables in scope at loop entry)."""
 
     def __init__(self, name, cls=None, ctx=("cm", "self"), stream=None, types=None, ret=T_INT, fuels=(),
-                 lean_name=None):
+                 lean_name=None, init=False, unpacked=None):
+        # init=True: an `__init__`-style method (returns None); the result is the list of the int attributes
+        # `self.X` it assigned.  unpacked="buff": the parameter whose only use is ONE statement
+        # `t1, ..., tn = <cm>.packer["FMT"].unpack(buff[: self.length])`; the translated function takes the
+        # unpacked values `vs : List Int` instead and records FMT and the length (see `init_mode` in the docstring)
+        self.init, self.unpacked = init, unpacked
+        self.unpack_info = None  # filled in: (FMT, length)
         self.name, self.cls, self.ctx, self.stream = name, cls, tuple(ctx), stream
         self.types, self.ret, self.fuels = dict(types or {}), ret, list(fuels)
+        if init:
+            ret = T_FIELDS
+            self.ret = ret
         self.lean_name = lean_name or name
         self.reads = False       # filled in: does it consume the stream
         self.params = []         # filled in: [(lean name, type)]
@@ -152,6 +176,8 @@ class FuncTranslator:
         self.mod, self.spec, self.fn = mod, spec, fn
         self.aux = []            # auxiliary loop defs (lists of lines)
         self.nloops = 0
+        self.unpack_stmt_node = None
+        self.ctx_attrs = set()    # init mode: attributes holding a context object (self.cm = cm)
         self.fresh_lists = set()  # locals bound to a list literal (item assignment allowed)
         self.loops = {}          # (while index, locals) -> auxiliary def name
         self.in_while = False
@@ -190,6 +216,12 @@ class FuncTranslator:
                 if sys.maxsize != 2 ** 63 - 1:
                     raise Unsupported(node, "sys.maxsize is not 2**63-1 on this interpreter")
                 return ilit(2 ** 63 - 1), T_INT
+            if self.spec.init and isinstance(node.value, ast.Name) and node.value.id == "self":
+                key = "self." + node.attr
+                if key in env.d:
+                    return "self_" + node.attr, env.d[key]
+                if node.attr == "length":
+                    return ilit(self.class_length(node)), T_INT
             raise Unsupported(node, "attribute " + ast.unparse(node))
         if isinstance(node, ast.Subscript):
             return self.index(node, env, pre, hoist, (T_LIST, T_BYTES))
@@ -304,7 +336,54 @@ class FuncTranslator:
         return t, ty
 
     def is_ctx(self, a):
+        if self.spec.init and isinstance(a, ast.Attribute) and isinstance(a.value, ast.Name) and a.value.id == "self" \
+                and a.attr in self.ctx_attrs:
+            return True
         return isinstance(a, ast.Name) and a.id in self.spec.ctx
+
+    def class_def(self, node):
+        cs = [n for n in self.mod.tree.body if isinstance(n, ast.ClassDef) and n.name == self.spec.cls]
+        if len(cs) != 1:
+            raise Unsupported(node, "class " + str(self.spec.cls))
+        return cs[0]
+
+    def class_length(self, node):
+        """`self.length`: the class attribute `length = <int literal>` of the class being translated, assigned
+        exactly once in the class body and never stored through `self`"""
+        c = self.class_def(node)
+        ls = [n for n in c.body if isinstance(n, ast.Assign) and len(n.targets) == 1 and isinstance(n.targets[0], ast.Name)
+              and n.targets[0].id == "length"]
+        stores = [n for n in ast.walk(c) if isinstance(n, ast.Attribute) and n.attr == "length" and not isinstance(n.ctx, ast.Load)]
+        if len(ls) != 1 or not is_nonneg_lit(ls[0].value) or stores:
+            raise Unsupported(node, "self.length is not a class attribute bound once to an int literal")
+        return ls[0].value.value
+
+    def length_expr(self, node):
+        """self.length, or self.get_length() when the (single, module-level) base class defines
+        `def get_length(self): return self.length` and the class does not override it"""
+        if isinstance(node, ast.Attribute) and isinstance(node.value, ast.Name) and node.value.id == "self" and node.attr == "length":
+            return self.class_length(node)
+        if (isinstance(node, ast.Call) and not node.args and not node.keywords and isinstance(node.func, ast.Attribute)
+                and isinstance(node.func.value, ast.Name) and node.func.value.id == "self" and node.func.attr == "get_length"):
+            c = self.class_def(node)
+            if any(isinstance(n, ast.FunctionDef) and n.name == "get_length" for n in c.body):
+                raise Unsupported(node, "get_length overridden")
+            b = self.base_class(node)
+            gs = [n for n in b.body if isinstance(n, ast.FunctionDef) and n.name == "get_length"]
+            body = [x for x in gs[0].body if not (isinstance(x, ast.Expr) and isinstance(x.value, ast.Constant))] if len(gs) == 1 else []
+            if len(body) != 1 or ast.unparse(body[0]) != "return self.length":
+                raise Unsupported(node, "base get_length is not `return self.length`")
+            return self.class_length(node)
+        raise Unsupported(node, "slice bound is neither self.length nor self.get_length()")
+
+    def base_class(self, node):
+        c = self.class_def(node)
+        if len(c.bases) != 1 or not isinstance(c.bases[0], ast.Name):
+            raise Unsupported(node, "not exactly one named base class")
+        bs = [n for n in self.mod.tree.body if isinstance(n, ast.ClassDef) and n.name == c.bases[0].id]
+        if len(bs) != 1:
+            raise Unsupported(node, "base class is not a module-level class")
+        return bs[0]
 
     def is_stream(self, a):
         return isinstance(a, ast.Name) and self.spec.stream is not None and a.id == self.spec.stream
@@ -432,6 +511,11 @@ class FuncTranslator:
                         if isinstance(sub, ast.Name) and sub.id not in env.d:
                             raise Unsupported(st, f"logger argument {sub.id} is not a definitely assigned local")
                 return self.count([self.src(st) + "   (dropped)"]) + after(env)
+            if self.spec.init and ast.unparse(v) == "super().__init__()":
+                b = self.base_class(st)
+                if b.bases or any(isinstance(n, ast.FunctionDef) and n.name == "__init__" for n in b.body):
+                    raise Unsupported(st, "the base class has bases or its own __init__")
+                return self.count([self.src(st) + "   (dropped: the base class defines no __init__)"]) + after(env)
             raise Unsupported(st, "expression statement")
         if isinstance(st, (ast.Assign, ast.AnnAssign, ast.AugAssign)):
             if isinstance(st, ast.Assign):
@@ -446,6 +530,20 @@ class FuncTranslator:
                 tgt, val = st.target, None
             if isinstance(st, ast.Assign) and isinstance(tgt, ast.Subscript):
                 return self.set_item(st, tgt, val, env, after)
+            if self.spec.init and isinstance(st, ast.Assign) and isinstance(tgt, ast.Tuple):
+                return self.unpack_stmt(st, tgt, val, env, after)
+            if self.spec.init and isinstance(st, ast.Assign) and isinstance(tgt, ast.Attribute) \
+                    and isinstance(tgt.value, ast.Name) and tgt.value.id == "self":
+                if self.is_ctx(val):                      # self.cm = cm
+                    self.ctx_attrs.add(tgt.attr)
+                    return self.count([self.src(st) + "   (context object)"]) + after(env)
+                if tgt.attr in self.ctx_attrs or tgt.attr == "length":
+                    raise Unsupported(st, "store to a context attribute / self.length")
+                pre = []
+                e = self.int_expr(val, env, pre, True)
+                env = env.copy()
+                env.set(st, "self." + tgt.attr, T_INT)
+                return self.count([self.src(st)] + self.emit_pre(pre) + [f"let self_{tgt.attr} : Int := {e}"]) + after(env)
             if not isinstance(tgt, ast.Name):
                 raise Unsupported(st, "assignment target is not a plain name")
             if tgt.id in self.spec.ctx or tgt.id == self.spec.stream:
@@ -471,8 +569,8 @@ class FuncTranslator:
                 lines.append(f"let {n} : {t} := {s}")
             return self.count(lines) + after(env)
         if isinstance(st, ast.Return):
-            if st.value is None:
-                raise Unsupported(st, "return without a value")
+            if st.value is None or self.spec.init:
+                raise Unsupported(st, "return without a value / return in an initialiser")
             pre = []
             s, t = self.expr(st.value, env, pre, True)
             if t != self.spec.ret:
@@ -500,6 +598,40 @@ class FuncTranslator:
         if isinstance(st, ast.While):
             return self.while_loop(st, env, after)
         raise Unsupported(st, "statement " + type(st).__name__)
+
+    def unpack_stmt(self, st, tgt, val, env, after):
+        """t1, ..., tn = <cm>.packer["FMT"].unpack(<unpacked param>[: self.length]) -- the values come in as `vs`"""
+        f = val.func if isinstance(val, ast.Call) else None
+        if not (f is not None and isinstance(f, ast.Attribute) and f.attr == "unpack" and isinstance(f.value, ast.Subscript)
+                and isinstance(f.value.slice, ast.Constant) and isinstance(f.value.slice.value, str)
+                and isinstance(f.value.value, ast.Attribute) and f.value.value.attr == "packer"
+                and self.is_ctx(f.value.value.value) and len(val.args) == 1 and not val.keywords):
+            raise Unsupported(st, "tuple assignment from anything but <cm>.packer[FMT].unpack(...)")
+        a = val.args[0]
+        if not (isinstance(a, ast.Subscript) and isinstance(a.value, ast.Name) and a.value.id == self.spec.unpacked
+                and isinstance(a.slice, ast.Slice) and a.slice.lower is None and a.slice.step is None and a.slice.upper is not None):
+            raise Unsupported(st, "unpack argument is not <unpacked parameter>[: self.length]")
+        if self.spec.unpack_info is not None and self.unpack_stmt_node is not st:
+            raise Unsupported(st, "more than one unpack statement")
+        self.unpack_stmt_node = st
+        self.spec.unpack_info = (f.value.slice.value, self.length_expr(a.slice.upper))
+        env = env.copy()
+        names = []
+        for t in tgt.elts:
+            if isinstance(t, ast.Name) and t.id not in self.spec.ctx and t.id != self.spec.unpacked:
+                env.set(st, t.id, T_INT)
+                names.append(lname(t.id))
+            elif isinstance(t, ast.Attribute) and isinstance(t.value, ast.Name) and t.value.id == "self" \
+                    and t.attr not in self.ctx_attrs and t.attr != "length":
+                env.set(st, "self." + t.attr, T_INT)
+                names.append("self_" + t.attr)
+            else:
+                raise Unsupported(st, "tuple target")
+        if len(set(names)) != len(names):
+            raise Unsupported(st, "repeated tuple target")
+        body = after(env)
+        return self.count([self.src(st), "match vs with", f"| [{', '.join(names)}] => ("] + ["  " + x for x in body]
+                          + ["  )", "| _ => none"])
 
     def set_item(self, st, tgt, val, env, after):
         """x[i] = e for a list created in this function by a list literal, i a non-negative literal"""
@@ -609,6 +741,8 @@ class FuncTranslator:
                 formals.append((p.arg, "ctx"))
             elif p.arg == spec.stream:
                 formals.append((p.arg, "stream"))
+            elif spec.unpacked is not None and p.arg == spec.unpacked:
+                formals.append((p.arg, "unpacked"))
             else:
                 t = spec.types.get(p.arg, T_INT)
                 formals.append((p.arg, t))
@@ -617,10 +751,18 @@ class FuncTranslator:
             raise Unsupported(fn, f"no stream parameter {spec.stream}")
         spec.formals = formals
         spec.reads = self.uses_stream
-        spec.params = [(lname(n), t) for n, t in formals if t not in ("ctx", "stream")]
+        spec.params = [("vs", "List Int") if t == "unpacked" else (lname(n), t) for n, t in formals if t not in ("ctx", "stream")]
+        if spec.unpacked is not None:
+            uses = [n for n in ast.walk(fn) if isinstance(n, ast.Name) and n.id == spec.unpacked]
+            if len(uses) != 1:
+                raise Unsupported(fn, f"{spec.unpacked} must be used exactly once (in the unpack statement)")
 
-        def fall_off(_env):
-            raise Unsupported(fn, "control can reach the end of the function (returns None)")
+        def fall_off(env_end):
+            if not spec.init:
+                raise Unsupported(fn, "control can reach the end of the function (returns None)")
+            fields = [k[5:] for k in env_end.d if k.startswith("self.")]
+            return ["-- end of the initialiser: the int attributes set on this path",
+                    "some [" + ", ".join(f'("{k}", self_{k})' for k in fields) + "]"]
 
         body = self.block(fn.body, env, fall_off, None)
         if len([n for n in ast.walk(fn) if isinstance(n, ast.While)]) != len(spec.fuels):
@@ -630,6 +772,11 @@ class FuncTranslator:
         out = []
         for aux in self.aux:
             out += aux + [""]
+        if spec.unpacked is not None:
+            if spec.unpack_info is None:
+                raise Unsupported(fn, "no unpack statement")
+            out += [f"/-- struct format and slice length of the unpack statement of `{where}` -/",
+                    f'def {spec.lean_name}_unpack : String × Nat := ("{spec.unpack_info[0]}", {spec.unpack_info[1]})', ""]
         out += [f"/-- `{where}` (source lines {fn.lineno}-{fn.end_lineno}) -/",
                 f"def {spec.lean_name} {sig} : {self.ret_type()} :=".replace("  :", " :")]
         out += ["  " + x for x in body]
